@@ -63,6 +63,17 @@ def search(res, tier, boost=False):
         # configurations the panel recursion treats specially (seam with all size ratios, corners, nested)
         pairs += [(a, b) for a, b, _ in seam_and_corner_pairs(rng, gamma, 24 if tier == 'quick' else 72)
                   if ok_aspect(a) and ok_aspect(b)]
+        # every ordered pair of SIDES of a polygon (parallel / anti-parallel / perpendicular, collinear or not, adjacent or
+        # opposite): whole sides in touching time slabs, both operator configurations
+        if len(gamma.pw_gamma) > 1 and mi < len(curves):
+            K = len(gamma.pw_gamma)
+            for pi_ in range(K):
+                for pj_ in range(K):
+                    if pi_ != pj_ and (tier != 'quick' or (pi_ + 2 * pj_ + res.seed) % 3 == 0 or abs(pi_ - pj_) == 4):
+                        a_ = StubElem((0.5, 1.0), addr_interval(gamma, (pi_, 0, 0)), gamma.pw_gamma[pi_])
+                        b_ = StubElem((0.0, 0.5), addr_interval(gamma, (pj_, 0, 0)), gamma.pw_gamma[pj_])
+                        if ok_aspect(a_) and ok_aspect(b_):
+                            pairs.append((a_, b_))
         # corpus (kept from earlier rounds, replayed on every run): a panel strictly inside a longer one with unequal
         # remainders, in touching time slabs - the only use of the Duffy rule on a rectangle with unequal sides
         pc = rng.randrange(len(gamma.pw_gamma))
@@ -82,8 +93,8 @@ def search(res, tier, boost=False):
             ref = ops.ref(te, tr)
             sc = ops.scale(te, tr)
             for pw in (False, True):
-                if pw and (cname == 'Circle' or te.gamma_space is not tr.gamma_space):
-                    continue
+                if pw and cname == 'Circle':
+                    continue      # (an operator configured with pw_exact=True must be right for pairs on different sides, too)
                 v = ops.SL[pw].bilform(tr, te)
                 err = abs(v - ref) / sc
                 worst = max(worst, err)
